@@ -323,17 +323,37 @@ def main():
         "engines": [
             {"name": "E1 exhaustive small-scope enumeration",
              "path": "vp/runner.py", "serves_properties":
-                 [c["property_id"] for c in checks],
-             "kind_free_text": "itertools.product over small alphabets, "
-                               "sharded over 16 processes"},
-            {"name": "E2/E3 Hypothesis (seeded, collect-all)",
+                 [c["property_id"] for c in checks
+                  if c["property_id"] != "C19"],
+             "kind_free_text": "itertools.product over small alphabets "
+                               "(documents by node count, path vocabularies, "
+                               "option sets, key/value variants), sharded "
+                               "over 16 processes; collect-all with signature "
+                               "bucketing"},
+            {"name": "E2/E3 Hypothesis (seeded, collect-all; rule-based "
+                     "state machine for C03 histories)",
              "path": "vp/hyp.py", "serves_properties":
-                 [c["property_id"] for c in checks],
+                 ["C01", "C02", "C03", "C04", "C08", "C12", "C14", "C15",
+                  "C19"],
              "kind_free_text": "property-based generation with @seed("
                                "VERIF_SEED), database=None, deadline=None; "
                                "failures are collected, bucketed by "
                                "signature and shrunk by the property's own "
                                "shrinker"},
+            {"name": "E4 atheris / libFuzzer coverage-guided campaigns",
+             "path": "vp/fuzz/target_c14.py",
+             "serves_properties": ["C14"],
+             "kind_free_text": "one libFuzzer process per shard, yamlpath "
+                               "instrumented, token dictionary, empty and "
+                               "seeded corpora; the target records the "
+                               "smallest failing input per signature and "
+                               "keeps fuzzing"},
+            {"name": "E5 single-fault enumeration over I/O call sequences",
+             "path": "vp/props/c17.py", "serves_properties": ["C17"],
+             "kind_free_text": "counting proxies for open/write/copy2/remove "
+                               "installed in the command modules; every k-th "
+                               "call failed in turn (OSError; AssertionError "
+                               "for dump writes)"},
         ],
         "checks": checks,
         "not_applicable": na,
